@@ -45,6 +45,54 @@ fn usage() -> i32 {
     2
 }
 
+/// Determinism proof of the simulator itself: the same run indices executed in fresh processes
+/// under three block partitions and worker counts, twice each, must give identical per-run
+/// event-log digests.
+fn selfcheck(runs: u64) -> i32 {
+    if let Err(e) = seam::seams_are_live() {
+        eprintln!("harness error: {e}");
+        return 2;
+    }
+    let seed = coord::seed_from_env();
+    println!("selfcheck: VERIF_SEED={seed}, {runs} run indices per property, 3 partitions x 2 repetitions");
+    let mut bad = 0;
+    for prop in ["C15", "C20", "C16"] {
+        let mut reference: Option<std::collections::BTreeMap<u64, u64>> = None;
+        let mut executions = 0;
+        for (block, workers) in [(runs, 1usize), ((runs / 8).max(1), 4), (50, 16)] {
+            for _rep in 0..2 {
+                let plan = coord::Plan { prop, tier: "quick".into(), seed, runs, block, workers };
+                match coord::run_plan(&plan) {
+                    Err(e) => {
+                        eprintln!("harness error: {e}");
+                        return 2;
+                    }
+                    Ok(red) => {
+                        executions += 1;
+                        match &reference {
+                            None => reference = Some(red.digests),
+                            Some(r) => {
+                                for (i, d) in &red.digests {
+                                    if r.get(i) != Some(d) {
+                                        eprintln!("{prop}: run {i} differs (block {block}, workers {workers})");
+                                        bad += 1;
+                                    }
+                                }
+                            }
+                        }
+                    }
+                }
+            }
+        }
+        println!("{prop}: {} run indices x {executions} executions in fresh processes: {}", reference.map(|r| r.len()).unwrap_or(0), if bad == 0 { "identical digests" } else { "DIFFERENCES" });
+    }
+    if bad == 0 {
+        0
+    } else {
+        2
+    }
+}
+
 fn real_main() -> i32 {
     let args: Vec<String> = std::env::args().skip(1).collect();
     let _ = log::set_logger(&LOGGER);
@@ -110,6 +158,7 @@ fn real_main() -> i32 {
             eprintln!("harness error: replay file names unknown property {prop:?}");
             2
         }
+        Some("selfcheck") => selfcheck(args.get(1).and_then(|s| s.parse().ok()).unwrap_or(2000)),
         Some("outputs") if args.len() >= 3 => histcheck::outputs_cmd(Path::new(&args[1]), args[2].parse().unwrap_or(0)),
         Some("show") if args.len() >= 4 => {
             let seed: u64 = args[2].parse().unwrap_or(1);
